@@ -368,7 +368,7 @@ def find_kernel_cex(ck, pkg, kind, r, m, outs):
                 wrong_value[0] = True      # not merely an unreduced representative of the right residue
             if len(hits) >= 12:
                 break
-    if hits:
+    def report_hits(hits):
         a, b = hits[0]
         path = ck.save_replay({'property': ck.pid, 'pkg': pkg, 'cases': [{'kind': 'kernel', 'op': kind, 'a': '%064x' % a_, 'b': '%064x' % b_} for a_, b_ in hits[:4]]})
         ok, out = core.go_test(path, pkg=pkg)
@@ -380,7 +380,60 @@ def find_kernel_cex(ck, pkg, kind, r, m, outs):
                              exposed_as=('%s.%s' % (pkg, kind.replace('self', ''))) if wrong_value[0] else None)
             return
         ck.inconclusive.append('kernel %s.%s: DAG evaluation disagrees with reference but replay passes (translator problem)' % (pkg, kind))
-        return
+    if hits:
+        return report_hits(hits)
+    # stage 1.3: lost carries.  Every plain (wrapping) 64-bit addition / subtraction in the kernel's word-level DAG is a place where
+    # a carry or borrow can be dropped; the Fiat code only has such operations where the wrap is impossible.  For each of them the
+    # solver is asked (QF_BV, only the cone of that one operation, all three solvers raced, operations in parallel) for an in-range
+    # operand on which it wraps; a model is evaluated on the whole DAG and kept when the kernel's output then differs from the
+    # reference value.  The cone of an early carry contains a handful of multiplications by constants, which bit-blasting inverts
+    # in seconds, where the differential query over the whole kernel (stage 2) does not finish.
+    try:
+        cone_ = BVLower(r).cone(outs)
+        wraps = [i_ for i_ in cone_ if r.nodes[i_]['op'] in ('add', 'sub') and r.nodes[i_].get('w') == 64 and
+                 not all(r.nodes[x_]['op'] == 'const' for x_ in r.nodes[i_]['a'])][:16]
+        def wrap_query(i_):
+            n_ = r.nodes[i_]
+            low = BVLower(r)
+            opv = {v: [varid(r, '%s%d' % (v, j_)) for j_ in range(4)] for v in 'ab'}
+            low.emit(list(n_['a']))
+            used = [v for v in 'ab' if any(x_ is not None and x_ in low.done for x_ in opv[v])]
+            low.emit([x_ for v in used for x_ in opv[v] if x_ is not None])
+            q = low.all()
+            for v in used:
+                if all(x_ is not None for x_ in opv[v]):
+                    q += '\n(assert (bvult (concat %s) %s))' % (' '.join('n%d' % x_ for x_ in reversed(opv[v])), bvconst256(m))
+            x_, y_ = [low.name(t_) for t_ in n_['a']]
+            q += ('\n(assert (bvult (bvadd %s %s) %s))' % (x_, y_, x_)) if n_['op'] == 'add' else ('\n(assert (bvult %s %s))' % (x_, y_))
+            names = [low.name(t_) for t_ in low.done if r.nodes[t_]['op'] == 'var']
+            mm, slv = smt.get_model(q, names, timeout=45 if ck.tier == 'quick' else 300)
+            return i_, mm, slv
+        found = []
+        if wraps:
+            from concurrent.futures import ThreadPoolExecutor
+            with ThreadPoolExecutor(max_workers=4) as ex_:
+                for i_, mm, slv in ex_.map(wrap_query, wraps):
+                    ck.record('K.%s.%s.wrap%d' % (pkg, kind, i_), 'lost-carry witness search: can the plain 64-bit %s at DAG node %d wrap for an in-range operand (QF_BV over its cone): %s' % (
+                        r.nodes[i_]['op'], i_, 'model found by ' + str(slv) if mm else 'no model (unsat or time limit)'), 'sat' if mm else 'unknown', slv, 0.0, 'sat' if mm else 'unknown')
+                    if mm:
+                        vals = {r.nodes[int(k_[1:])]['n']: v_ for k_, v_ in mm.items()}
+                        a = unlimbs([vals.get('a%d' % j_, 0) for j_ in range(4)])
+                        b = unlimbs([vals.get('b%d' % j_, 0) for j_ in range(4)])
+                        if not (a < m and b < m):
+                            continue
+                        env = {}
+                        for j_ in range(4):
+                            env['a%d' % j_] = limbs(a)[j_]
+                            env['b%d' % j_] = limbs(b)[j_]
+                        got = unlimbs([Eval(r, env, apps).ev(x_) for x_ in outs])
+                        if got != ref(kind, a, b, m):
+                            found.append((a, b))
+                            if got % m != ref(kind, a, b, m) % m:
+                                wrong_value[0] = True
+        if found:
+            return report_hits(found)
+    except (ValueError, KeyError) as e:
+        ck.notes.append('lost-carry search for %s.%s not possible: %s' % (pkg, kind, str(e)[:200]))
     # stage 1.5: kernels without symbolic products (FromMontgomery, ToMontgomery, Add, Sub, Opp) have an exact linear-integer encoding:
     # a model of "encoding and not contract" is a real input
     for qi, q in enumerate(ck.extra.get('_lia_q', {}).get((pkg, kind), [])):
